@@ -146,7 +146,8 @@ func runC06(r *core.Run) {
 	r.Rule("R06.5", "structs parsed inside a loop are fresh per iteration", 1, true)
 	r.Rule("R06.6", "writeString rejects oversized login fields before writing", 1, false)
 	r.Rule("R06.8", "serialising does not modify the package (writers and the helpers they call are pure)", 30, false)
-	r.Rule("R06.7", "write-side length formula: the declared length equals the bytes written after it (straight-line writers)", 3, false)
+	r.Rule("R06.9", "fields are read and written in the order of the TDS 5.0 specification (same-width neighbours; also when reader and writer agree with each other)", 16, false)
+	r.Rule("R06.7", "write-side length formula: the declared length equals the bytes written after it (straight-line writers)", 9, false)
 
 	tds := p.Pkg("tds")
 	table, _ := lookupTable(p)
@@ -341,6 +342,7 @@ func runC06(r *core.Run) {
 	c06WriteString(r)
 	c06LengthFormula(r, ef, pkgs)
 	purityOfWriters(r, ef, pkgs, "R06.8")
+	c06FieldOrder(r, ef, pkgs)
 }
 
 func tokNames(ks []int64, names map[int64]string) string {
